@@ -584,11 +584,14 @@ class Lexer:
                     ),
                 )
 
-    def accept_range(self) -> None:
-        rparen = self.expression.pop()
+    def accept_range(self, expression: list[TokenT]) -> None:
+        if len(expression) < 5:  # noqa: PLR2004
+            self.raise_for_token("malformed range expression", expression[-1])
+
+        rparen = expression.pop()
         assert is_token_type(rparen, TokenType.RPAREN)
 
-        range_stop_token = self.expression.pop()
+        range_stop_token = expression.pop()
         if range_stop_token.type_ not in (
             TokenType.INT,
             TokenType.SINGLE_QUOTE_STRING,
@@ -602,11 +605,11 @@ class Lexer:
                 range_stop_token,
             )
 
-        double_dot = self.expression.pop()
+        double_dot = expression.pop()
         if not is_token_type(double_dot, TokenType.DOUBLE_DOT):
             self.raise_for_token("malformed range expression", double_dot)
 
-        range_start_token = self.expression.pop()
+        range_start_token = expression.pop()
         if range_start_token.type_ not in (
             TokenType.INT,
             TokenType.SINGLE_QUOTE_STRING,
@@ -619,13 +622,13 @@ class Lexer:
                 range_start_token,
             )
 
-        lparen = self.expression.pop()
+        lparen = expression.pop()
         if not is_token_type(lparen, TokenType.LPAREN):
             self.raise_for_token(
                 "range expressions must be surrounded by parentheses", lparen
             )
 
-        self.expression.append(
+        expression.append(
             RangeToken(
                 type_=TokenType.RANGE,
                 range_start=range_start_token,
@@ -701,7 +704,7 @@ class Lexer:
                 self.in_range = True
 
             if kind == "RPAREN" and self.in_range:
-                self.accept_range()
+                self.accept_range(expression)
                 self.in_range = False
         else:
             msg = f"unexpected token {self.source[self.start : self.pos]!r}"
